@@ -75,7 +75,7 @@ def r2(F, R):
     from . import attempt as AT
     from . import deep as D
     sites = [(b, s, t) for b, s, t, k in user_callback_sites(F) if k == "World::new"]
-    roots = {F.root_fn(b).key: F.root_fn(b) for b, s, t in sites}
+    roots = {r.key: r for b, s, t in sites for r, _ in roles.routines_of(F, b)}
     rs, root, tree = roles.attempt_tree(F)
     b_step, fo = c02.run_step_body(F, tree)
     step_family = {x.key for x in roles.family(F, F.root_fn(b_step))}
@@ -190,16 +190,19 @@ def r3(F, R):
     R.check(len(tw) == 1, "take-world/found", None, "", f"{len(tw)} candidates")
     if len(tw) == 1:
         b = tw[0]
-        paths = A.enumerate_paths(b)
+        # on its deep path table: per failure kind the stored World (the variant's `Option<W>` field) is what is returned (and taken)
+        from . import deep as D
+        info = F.adt("runner::basic::ExecutionFailure")
         arms = {}
-        for p in paths:
-            var = [o for a, o in p.decisions if "ExecutionFailure" in a]
-            refs = [stt for s, k, stt in p.effects if k == "assign" and stt["rv"]["k"] == "ref" and stt["rv"]["mut"] and place_fields(stt["rv"]["pl"])]
-            fields = [place_fields(stt["rv"]["pl"])[-1] for stt in refs if "ExecutionFailure" in place_fields(stt["rv"]["pl"])[-1][0]]
-            takes = p.calls(r"Option::<.*>::take$", r"mem::take$")
-            arms[var[0] if var else "?"] = (fields, len(takes))
-        ok = set(arms) == {"BeforeHookPanicked", "StepSkipped", "StepPanicked"} and all(len(f) == 1 and n == 1 and (f[0][1] in ("world", "0")) for f, n in arms.values())
-        R.check(ok, "take-world/all-arms", b, "every failure kind yields its stored World", f"take_world arms: {arms}")
+        for p in D.Deep(F, b, max_paths=50).run():
+            var = [o for a, o in p.conds if a[0] == "discr" and a[1] in (("deref", ("arg", 1)), ("arg", 1))]
+            v = var[0] if len(var) == 1 else "?"
+            vinfo = [x for x in info["variants"] if x["name"] == v]
+            widx = [i for i, f in enumerate(vinfo[0]["fields"]) if re.match(r"^std::option::Option<(W|World)>$", f.get("ty", ""))] if vinfo else []
+            want = ("field", ("as", ("deref", ("arg", 1)), v), widx[0]) if len(widx) == 1 else None
+            arms[v] = want is not None and p.ret == want
+        ok = set(arms) == {x["name"] for x in info["variants"]} and all(arms.values())
+        R.check(ok, "take-world/all-arms", b, "every failure kind yields its stored World", f"take_world does not return the stored World of every failure kind: {arms}")
     # after hook receives: Ok -> world.take(), Err -> take_world()
     body = None
     for bb in tree:
